@@ -169,13 +169,15 @@ func guard(f func() string) (res string) {
 
 // withTimeout runs f in a goroutine (panics recovered there) and maps a call that does not return
 // within 10 s to "err hang".
-func withTimeout(f func() string) string {
+func withTimeout(f func() string) string { return withTimeoutD(10*time.Second, f) }
+
+func withTimeoutD(d time.Duration, f func() string) string {
 	ch := make(chan string, 1)
 	go func() { ch <- guard(f) }()
 	select {
 	case s := <-ch:
 		return s
-	case <-time.After(10 * time.Second):
+	case <-time.After(d):
 		return "err hang"
 	}
 }
